@@ -99,7 +99,8 @@ def codeStr : Code → String
   | .operatorUnsupported => "BadFilterOperatorUnsupported"
   | .operatorInvalid => "BadFilterOperatorInvalid"
   | .good => "Good"
-  | .outOfFuel => "model-unsupported"
+  | .outOfFuel => "model-out-of-fuel"
+  | .unsupportedPattern => "model-unsupported"
 
 def showRes : Res → String
   | .ok v => "ok " ++ showV v
